@@ -74,9 +74,9 @@ TrStart == IsEvent("Start") /\ LET e == Trace[l] IN
 
 TrEnqueue == IsEvent("Enqueue") /\ LET e == Trace[l]  a == e.args IN
   /\ Enqueue(a.kind) /\ o' = e.obs /\ KeepMon
-  /\ Quiet(e, a.kind = "usc", a.kind = "uusc")
+  /\ Quiet(e, IsUsc(a.kind), a.kind = "uusc")
   /\ Conf("Enqueue.others", \A q \in Q(o) : q \in Q(e.obs))
-  /\ Conf("Enqueue.res", e.res = res' /\ (e.res = "ok" => e.id = nextId))
+  /\ Conf("Enqueue.res", e.res = res' /\ (e.res = "ok" => e.id = IF a.kind = "uscn" THEN nextId + 1 ELSE nextId))
   /\ ConfState(e.obs)
 
 TrSign == IsEvent("Sign") /\ LET e == Trace[l]  a == e.args IN
@@ -99,6 +99,7 @@ TrEndBlock == IsEvent("EndBlock") /\ LET e == Trace[l]
      \* messages the code reports as accepted on the strength of a transaction
      acc == {q \in Q(o) : q.id \in rIds \ failing /\ TxWinner(q)}
      goodK(k) == {q \in Q(o) : q.kind = k /\ Good(q)}
+     goodUsc == goodK("usc") \cup goodK("uscn")
      newMsgs == {q \in Q(n) : q.id \notin Ids(o)}
      upgraded == \E i \in DOMAIN n.deploy : \E j \in DOMAIN o.deploy :
                     n.deploy[i].sc = o.deploy[j].sc /\ (n.deploy[i].status # o.deploy[j].status \/ n.deploy[i].hasaddr # o.deploy[j].hasaddr)
@@ -117,10 +118,10 @@ TrEndBlock == IsEvent("EndBlock") /\ LET e == Trace[l]
   /\ Report("C07.SnapshotLiveOnlyByProof", /\ n.live1 = o.live1 /\ n.live2 >= o.live2
                                            /\ n.live2 - o.live2 <= Cardinality(goodK("valset")))
   /\ Report("C07.CompassOnlyByProof",
-       /\ (upgraded => goodK("usc") # {})
-       /\ (\E q \in newMsgs : q.kind = "handover") => goodK("usc") # {}
+       /\ (upgraded => goodUsc # {})
+       /\ (\E q \in newMsgs : q.kind = "handover") => goodUsc # {}
        /\ ((n.active # o.active \/ n.addr # o.addr) => goodK("handover") # {})
-       /\ (dropped # {} => goodK("handover") # {} \/ \E q \in Q(o) : q.kind = "usc" /\ ErrWinner(q))
+       /\ (dropped # {} => goodK("handover") # {} \/ \E q \in Q(o) : IsUsc(q.kind) /\ ErrWinner(q))
        /\ \A i \in DOMAIN n.deploy : \E j \in DOMAIN o.deploy : n.deploy[i].sc = o.deploy[j].sc)
   /\ Report("C07.UserContractOnlyByProof", userUp => goodK("uusc") # {})
   /\ Report("C07.FailedOrForeignRemovesWithoutEffects",
